@@ -10,6 +10,7 @@ import (
 	"fmt"
 	"go/token"
 	"go/types"
+	"sort"
 	"strings"
 
 	"golang.org/x/tools/go/ssa"
@@ -656,4 +657,319 @@ func (t *taint) cleanFieldEverywhere(fa *ssa.FieldAddr, owner, field string, cls
 	}
 	t.fieldMemo[key] = 1
 	return true, ""
+}
+
+// checkSanitiserScan: scan-coverage precondition of the base neutralisers. A
+// neutraliser rewrites its argument in place inside one loop; the value it
+// returns is clean only if that loop visits every position that can hold a
+// byte of the class. Decided here: (step) the loop index advances by exactly
+// one; (bound) the loop runs until the index reaches len(argument); (body) in
+// every iteration each class byte is compared with the current element and a
+// match always reaches the rewrite; (start) in the zone domain, on every path
+// to the loop the first index visited is 0 or not beyond the first occurrence
+// of each class byte (bytes.IndexByte result, which is -1 or the smallest
+// position), and a return that skips the loop is taken only when every class
+// byte was reported absent. An implementation of a different shape is
+// reported as undecided, never as a violation.
+func (t *taint) checkSanitiserScan(r *Report, rule string) {
+	classBytes := map[taintClass][]int64{clsCRLF: {'\r', '\n'}, clsSEMI: {';'}}
+	var fns []*ssa.Function
+	for f := range t.sanitiser {
+		fns = append(fns, f)
+	}
+	sort.Slice(fns, func(i, j int) bool { return fns[i].Name() < fns[j].Name() })
+	for _, f := range fns {
+		cls := t.sanitiser[f]
+		name := funcName(f)
+		if len(f.Params) == 0 {
+			r.Undecided(rule, "scan coverage of "+name, "no parameter")
+			continue
+		}
+		arg := f.Params[0]
+		// the rewriting stores
+		var stores []*ssa.Store
+		for _, b := range f.Blocks {
+			for _, in := range b.Instrs {
+				if st, ok := in.(*ssa.Store); ok {
+					if ia, ok := st.Addr.(*ssa.IndexAddr); ok && ia.X == arg {
+						stores = append(stores, st)
+					}
+				}
+			}
+		}
+		if len(stores) == 0 {
+			r.Undecided(rule, "scan coverage of "+name, "no in-place element store on the parameter: implementation shape not recognised")
+			continue
+		}
+		idxTerm := func(v ssa.Value) (*ssa.Phi, int64, bool) {
+			var k int64
+			for i := 0; i < 4; i++ {
+				switch w := v.(type) {
+				case *ssa.Phi:
+					return w, k, true
+				case *ssa.BinOp:
+					c, ok := constInt(w.Y)
+					if !ok {
+						return nil, 0, false
+					}
+					if w.Op == token.ADD {
+						k += c
+					} else if w.Op == token.SUB {
+						k -= c
+					} else {
+						return nil, 0, false
+					}
+					v = w.X
+				default:
+					return nil, 0, false
+				}
+			}
+			return nil, 0, false
+		}
+		var hdr *ssa.BasicBlock
+		var phi *ssa.Phi
+		var off int64
+		shapeOK := true
+		for _, st := range stores {
+			h := loopHeaderOf(st.Block())
+			ph, k, ok := idxTerm(st.Addr.(*ssa.IndexAddr).Index)
+			if h == nil || !ok || ph.Block() != h || (hdr != nil && (h != hdr || ph != phi || k != off)) {
+				shapeOK = false
+				break
+			}
+			hdr, phi, off = h, ph, k
+		}
+		if !shapeOK {
+			r.Undecided(rule, "scan coverage of "+name, "the element rewrites are not inside one loop indexed by one induction variable: implementation shape not recognised")
+			continue
+		}
+		sameIdx := func(v ssa.Value) bool {
+			ph, k, ok := idxTerm(v)
+			return ok && ph == phi && k == off
+		}
+		// (step)
+		stepOK, initN := true, 0
+		for i, pr := range hdr.Preds {
+			e := phi.Edges[i]
+			if hdr.Dominates(pr) {
+				ph, k, ok := idxTerm(e)
+				if !ok || ph != phi || k != 1 {
+					stepOK = false
+				}
+			} else {
+				initN++
+			}
+		}
+		r.Check(rule, fmt.Sprintf("neutraliser %s: the scan index advances by exactly one position per iteration", name), stepOK && initN > 0, t.p.Pos(phi.Pos()),
+			"the loop that rewrites the class bytes skips positions (its index is not advanced by the constant 1 on every back edge)")
+		// (bound)
+		boundOK := false
+		for _, b := range f.Blocks {
+			if !inLoop(hdr, b) {
+				continue
+			}
+			iff, ok := b.Instrs[len(b.Instrs)-1].(*ssa.If)
+			if !ok {
+				continue
+			}
+			leaves := -1
+			for i, su := range b.Succs {
+				if !inLoop(hdr, su) {
+					leaves = i
+				}
+			}
+			if leaves < 0 {
+				continue
+			}
+			pos, c := stripNot(iff.Cond)
+			bo, ok := c.(*ssa.BinOp)
+			if !ok {
+				continue
+			}
+			isLen := func(v ssa.Value) bool {
+				call, ok := v.(*ssa.Call)
+				if !ok {
+					return false
+				}
+				bi, ok := call.Call.Value.(*ssa.Builtin)
+				return ok && bi.Name() == "len" && len(call.Call.Args) == 1 && call.Call.Args[0] == arg
+			}
+			// stays in the loop exactly while idx < len(arg)
+			stayOnTrue := leaves == 1
+			if !pos {
+				stayOnTrue = !stayOnTrue
+			}
+			switch {
+			case bo.Op == token.LSS && sameIdx(bo.X) && isLen(bo.Y) && stayOnTrue,
+				bo.Op == token.GTR && isLen(bo.X) && sameIdx(bo.Y) && stayOnTrue,
+				bo.Op == token.GEQ && sameIdx(bo.X) && isLen(bo.Y) && !stayOnTrue,
+				bo.Op == token.LEQ && isLen(bo.X) && sameIdx(bo.Y) && !stayOnTrue:
+				boundOK = true
+			}
+		}
+		r.Check(rule, fmt.Sprintf("neutraliser %s: the scan runs until the index reaches len(argument)", name), boundOK, t.p.Pos(phi.Pos()),
+			"the loop that rewrites the class bytes may stop before the end of its argument")
+		// (body)
+		storeBlocks := map[*ssa.BasicBlock]bool{}
+		for _, st := range stores {
+			if c, ok := constInt(st.Val); ok {
+				inClass := false
+				for _, cb := range classBytes[cls] {
+					if c == cb {
+						inClass = true
+					}
+				}
+				if !inClass {
+					storeBlocks[st.Block()] = true
+				}
+			}
+		}
+		reachesHeaderAvoiding := func(from *ssa.BasicBlock, stop map[*ssa.BasicBlock]bool) bool {
+			seen := map[*ssa.BasicBlock]bool{}
+			var q []*ssa.BasicBlock
+			push := func(b *ssa.BasicBlock) {
+				if !seen[b] && inLoop(hdr, b) {
+					seen[b] = true
+					q = append(q, b)
+				}
+			}
+			push(from)
+			for len(q) > 0 {
+				b := q[0]
+				q = q[1:]
+				if stop[b] {
+					continue
+				}
+				for _, su := range b.Succs {
+					if su == hdr {
+						return true
+					}
+					push(su)
+				}
+			}
+			return false
+		}
+		for _, cb := range classBytes[cls] {
+			cmpBlocks := map[*ssa.BasicBlock]bool{}
+			matchOK := true
+			for _, b := range f.Blocks {
+				if !inLoop(hdr, b) {
+					continue
+				}
+				iff, ok := b.Instrs[len(b.Instrs)-1].(*ssa.If)
+				if !ok {
+					continue
+				}
+				pos, c := stripNot(iff.Cond)
+				bo, ok := c.(*ssa.BinOp)
+				if !ok || (bo.Op != token.EQL && bo.Op != token.NEQ) {
+					continue
+				}
+				el, k := bo.X, bo.Y
+				if _, isC := constInt(el); isC {
+					el, k = k, el
+				}
+				kv, isC := constInt(k)
+				ld, isLd := el.(*ssa.UnOp)
+				if !isC || kv != cb || !isLd || ld.Op != token.MUL {
+					continue
+				}
+				ia, ok := ld.X.(*ssa.IndexAddr)
+				if !ok || ia.X != arg || !sameIdx(ia.Index) {
+					continue
+				}
+				cmpBlocks[b] = true
+				matchSucc := 0
+				if (bo.Op == token.NEQ) == pos {
+					matchSucc = 1
+				}
+				if reachesHeaderAvoiding(b.Succs[matchSucc], storeBlocks) {
+					matchOK = false
+				}
+			}
+			stop := map[*ssa.BasicBlock]bool{}
+			for b := range cmpBlocks {
+				stop[b] = true
+			}
+			for b := range storeBlocks {
+				stop[b] = true
+			}
+			// the body proper starts at the in-loop successors of the header (or at the header itself when it holds the compare)
+			skip := false
+			if !stop[hdr] {
+				for _, su := range hdr.Succs {
+					if inLoop(hdr, su) && su != hdr && reachesHeaderAvoiding(su, stop) {
+						skip = true
+					}
+				}
+			}
+			r.Check(rule, fmt.Sprintf("neutraliser %s: every iteration compares the element with byte %#x and a match is always rewritten", name, cb), len(cmpBlocks) > 0 && matchOK && !skip, t.p.Pos(phi.Pos()),
+				fmt.Sprintf("compare sites in the loop: %d; a match can reach the next iteration without the rewrite: %v; an iteration can pass without the compare: %v", len(cmpBlocks), !matchOK, skip))
+		}
+		// (start) zone analysis of the prefix of the function up to the loop
+		indexCalls := map[int64][]*ssa.Call{}
+		for _, b := range f.Blocks {
+			for _, in := range b.Instrs {
+				c, ok := in.(*ssa.Call)
+				if !ok {
+					continue
+				}
+				g := c.Call.StaticCallee()
+				if g == nil || g.Pkg == nil || g.Pkg.Pkg.Path() != "bytes" || g.Name() != "IndexByte" || len(c.Call.Args) != 2 || c.Call.Args[0] != arg {
+					continue
+				}
+				if k, ok := constInt(c.Call.Args[1]); ok {
+					indexCalls[k] = append(indexCalls[k], c)
+				}
+			}
+		}
+		absent := func(z *zone, cb int64) bool {
+			for _, c := range indexCalls[cb] {
+				if n, ok := z.idx[c]; ok && z.entails(n, 0, 0, 0, -1) {
+					return true
+				}
+			}
+			return false
+		}
+		firstIdx := phi
+		res := zoneWalk(t.p, f, nil,
+			func(rt *ssa.Return) bool { return true },
+			func(z *zone, rt *ssa.Return) (bool, string) {
+				for _, cb := range classBytes[cls] {
+					if !absent(z, cb) {
+						return false, fmt.Sprintf("returns without scanning although byte %#x was not reported absent on this path", cb)
+					}
+				}
+				return true, ""
+			},
+			func(b, from *ssa.BasicBlock, z *zone) (bool, bool, string) {
+				if b != hdr {
+					return false, true, ""
+				}
+				n, o := z.term(firstIdx)
+				o += off
+				if z.entails(n, o, 0, 0, 0) {
+					return true, true, ""
+				}
+				for _, cb := range classBytes[cls] {
+					ok := absent(z, cb)
+					for _, c := range indexCalls[cb] {
+						if m, has := z.idx[c]; has && z.entails(n, o, m, 0, 0) {
+							ok = true
+						}
+					}
+					if !ok {
+						return true, false, fmt.Sprintf("on this path the scan starts at a position that is not shown to be at or before the first byte %#x", cb)
+					}
+				}
+				return true, true, ""
+			})
+		if res.undecided != "" {
+			r.Undecided(rule, "scan start of "+name, res.undecided)
+			continue
+		}
+		r.Check(rule, fmt.Sprintf("neutraliser %s: the scan starts at or before the first byte of the class on every path, and is skipped only when none is present", name), res.bad == 0, t.p.Pos(f.Pos()),
+			fmt.Sprintf("%s (%d of %d paths to the loop or to an early return)", res.detail, res.bad, res.successReturns), res.witness...)
+		r.Counts[rule+" paths to the scan loop of "+name] = res.successReturns
+	}
 }
